@@ -6,11 +6,12 @@
    lattice (all 2^n subsets, as initial states).  Each case is printed with the
    contract-computed expectation (verdict, last-valid index, counter).
 2. Every case is replayed on the real validators (M3): R^1 (count factor 1, 2, 3, from a
-   bound), SO(2) across the seam, SE(2), a weighted compound, DubinsMotionValidator and
-   ReedsSheppMotionValidator on straight pose pairs; list cases on
+   bound), SO(2) across the seam, SE(2), a weighted compound, DubinsMotionValidator,
+   ReedsSheppMotionValidator and Dubins3DMotionValidator (Owen, Vana, Vana-Owen spaces) on
+   straight pose pairs; list cases on
    SpaceInformation::checkMotion(states,count[,first]) fed by getMotionStates.
 3. base/SegmentCount.tla: factor * ceil(d / L) and the compound maximum, every (d, L, f),
-   replayed on StateSpace::validSegmentCount.
+   replayed on StateSpace::validSegmentCount (run before 2: the pose pairs of 2 rely on it).
 4. Random curved Dubins / Reeds-Shepp / SE(2) motions under random predicates are recorded
    and validated by TLC against the contract (base/MotionCheckTrace.tla).
 """
@@ -29,7 +30,7 @@ ACTIONS = ["LinScan", "LinEnd", "LinCount", "BisEnd", "BisStep", "BisCount", "Ls
            "LstBack", "LstStep", "LstRet", "LfiScan", "LfiRet"]
 BINDINGS = ["r1", "r1-rev-from-bound", "r1-factor2", "r1-factor3", "so2-seam", "so2-seam-neg", "se2-x",
             "se2-yaw-seam", "compound-first-leads", "compound-second-leads", "dubins",
-            "dubins-symmetric-reversed", "reedsshepp", "reedsshepp-backwards"]
+            "dubins-symmetric-reversed", "reedsshepp", "reedsshepp-backwards", "owen", "vana", "vanaowen"]
 
 
 def _cfg_dir():
@@ -78,17 +79,30 @@ def _run_harness(ck, binary, mode, path, label, timeout=3000):
                          "cases: " + (err or out)[-800:], rp)
             return None
         raise FrameworkError("motion %s produced no summary (rc=%s): %s" % (mode, rc, (out + err)[-2000:]))
+    # group the failing (binding, clause) pairs by (family, clause): one violation per clause of
+    # one validator, saying whether every binding of that validator shows it or only some
+    groups = {}
     for f in summ["first_failures"]:
-        key = f["key"]
+        groups.setdefault((f["family"], f["clause"]), []).append(f)
+    for (family, clause), fs in sorted(groups.items()):
+        fs.sort(key=lambda f: f["binding"])
+        failing = [f["binding"] for f in fs]
+        every = sorted(summ.get("families", {}).get(family, []))
+        key = "%s|%s" % (family, clause)
+        if failing != every:
+            key += "|only:" + "+".join(failing)
+        f = fs[0]
         case = dict(f["case"])
         case["binding"] = f["binding"]
-        name = "".join(ch if ch.isalnum() else "-" for ch in key)[:80]
+        name = "".join(ch if ch.isalnum() else "-" for ch in key)[:90]
         prefix = "segcount-" if mode == "segcount" else "case-"
         rp = ck.replay_file(prefix + name + ".ndjson", json.dumps(case, separators=(",", ":")) + "\n")
-        ck.violation(key, "%d specification case(s) fail on the real code; first: binding %s, case %s: %s"
-                     % (summ["failure_keys"][key], f["binding"],
-                        json.dumps({k: f["case"][k] for k in f["case"] if k in ("k", "nd", "valid", "a", "b", "count", "endpoints")}),
-                        f["why"]), rp)
+        total = sum(summ["failure_keys"][x["key"]] for x in fs)
+        ck.violation(key, "%d replay(s) of specification cases fail on the real code in %d of %d binding(s) of %s (%s); "
+                     "first: binding %s, case %s: %s"
+                     % (total, len(failing), len(every), family, ", ".join(failing), f["binding"],
+                        json.dumps({k: f["case"][k] for k in f["case"]
+                                    if k in ("k", "nd", "valid", "a", "b", "count", "endpoints")}), f["why"]), rp)
     return summ
 
 
@@ -107,7 +121,8 @@ def run(tier):
                        "the subdivision lattice of a pair is interpolate(s1, s2, k/nd) with nd = the space's "
                        "validSegmentCount; exact bindings place it on arithmetic lattices (deviation measured, <= 1e-7)",
                        "curved Dubins / Reeds-Shepp motions are judged by trace validation against the recorded "
-                       "predicate, not against an exact model; Dubins3DMotionValidator (Vana/Owen spaces) is not bound"]
+                       "predicate, not against an exact model; Dubins3DMotionValidator (Owen/Vana/Vana-Owen spaces) is "
+                       "bound on straight level pairs only"]
     binary = build_harness("motion", needs_lib=True, san="asan")
     if tier == "quick":
         n, seg, ntrace, nfiles = 10, (16, 4, 3, 6), 3000, 1
@@ -141,31 +156,7 @@ def run(tier):
     ck.set("max_segment_count", n)
     ck.set("predicates_enumerated", got)
 
-    # 2. every case on every binding
-    summ = _run_harness(ck, binary, "replay", cpath, "replay")
-    if summ is not None:
-        ck.add("traces_validated_against_impl", summ["scenarios"])
-        ck.add("cases_replayed", summ["scenarios"])
-        ck.set("bindings", summ["bindings"])
-        ck.set("replay_vacuity", summ["vacuity"])
-        ck.set("list_cases_replayed", summ["list_replayed"])
-        ck.set("state_extraction_cases_replayed", summ["states_replayed"])
-        empty = [b for b in BINDINGS if summ["bindings"].get(b, {}).get("replayed", 0) == 0]
-        zero = [k for k, v in summ["vacuity"].items() if v == 0]
-        if empty or zero or summ["list_replayed"] == 0 or summ["states_replayed"] == 0:
-            raise FrameworkError("vacuity gate: bindings without a replayed case %s / branches of the real code never "
-                                 "taken %s" % (empty, zero))
-        dev = max(b["max_lattice_dev"] for b in summ["bindings"].values())
-        ck.set("max_lattice_deviation", dev)
-        for c in cases:
-            if c["k"] == "motion" and c["nd"] == 5 and len(c["valid"]) == 4:
-                ck.sample({"kind": "replayed case (all 14 bindings)", "case": c})
-                break
-        for c in cases:
-            if c["k"] == "list" and c["nd"] == 4 and c["valid"] == [0, 1, 3]:
-                ck.sample({"kind": "replayed list case", "case": c})
-
-    # 3. segment count rule
+    # 2. segment count rule (first: the replay below relies on it to build its pairs)
     segcases = []
     res = run_tlc("base/SegmentCount", cfg=_cfg_seg(*seg), workers=vlib.NCPU, timeout=3000, json_sink=segcases.append)
     ck.tlc(res, "SegmentCount-%d-%d-%d-%d" % seg)
@@ -179,6 +170,7 @@ def run(tier):
     spath = os.path.join(WORK, "c05-segcount.ndjson")
     vlib.write_ndjson(spath, segcases)
     ssum = _run_harness(ck, binary, "segcount", spath, "segcount")
+    seg_broken = ssum is None or ssum["failures"] > 0
     if ssum is not None:
         ck.add("traces_validated_against_impl", ssum["scenarios"])
         ck.add("cases_replayed", ssum["scenarios"])
@@ -187,6 +179,39 @@ def run(tier):
         # compound itself (only the components' factors count)
         ck.set("compound_own_factor_ignored_cases", ssum["compound_own_factor_ignored"])
         ck.sample({"kind": "segment count case", "case": segcases[len(segcases) // 2]})
+
+    # 3. every case on every binding
+    summ = _run_harness(ck, binary, "replay", cpath, "replay")
+    if summ is not None:
+        ck.add("traces_validated_against_impl", summ["scenarios"])
+        ck.add("cases_replayed", summ["scenarios"])
+        ck.set("bindings", summ["bindings"])
+        ck.set("replay_vacuity", summ["vacuity"])
+        ck.set("list_cases_replayed", summ["list_replayed"])
+        ck.set("state_extraction_cases_replayed", summ["states_replayed"])
+        mism = {b: v["segment_count_mismatch"] for b, v in summ["bindings"].items() if v["segment_count_mismatch"]}
+        if mism:
+            if not seg_broken:
+                raise FrameworkError("pose pairs do not realize the intended segment count although the segment-count "
+                                     "stage passed: %s" % mism)
+            log("[C05] note: replay skipped where validSegmentCount is off (reported by the segment-count stage): %s" % mism)
+            ck.set("replay_skipped_segment_count_mismatch", mism)
+        empty = [b for b in BINDINGS if summ["bindings"].get(b, {}).get("replayed", 0) == 0 and b not in mism]
+        zero = [k for k, v in summ["vacuity"].items() if v == 0]
+        if empty or summ["list_replayed"] == 0 or summ["states_replayed"] == 0:
+            raise FrameworkError("vacuity gate: bindings without a replayed case %s" % empty)
+        if zero and not summ["failures"]:
+            # (a tree that fails the replay may legitimately never take a branch; it is alarming already)
+            raise FrameworkError("vacuity gate: branches of the real code never taken: %s" % zero)
+        dev = max(b["max_lattice_dev"] for b in summ["bindings"].values())
+        ck.set("max_lattice_deviation", dev)
+        for c in cases:
+            if c["k"] == "motion" and c["nd"] == 5 and len(c["valid"]) == 4:
+                ck.sample({"kind": "replayed case (all %d bindings)" % len(summ["bindings"]), "case": c})
+                break
+        for c in cases:
+            if c["k"] == "list" and c["nd"] == 4 and c["valid"] == [0, 1, 3]:
+                ck.sample({"kind": "replayed list case", "case": c})
 
     # 4. recorded curved motions validated against the contract
     for i in range(nfiles):
